@@ -403,6 +403,41 @@ where
     }
 }
 
+#[cfg(futures_intrusive_verif)]
+impl<MutexType: RawMutex, T: Clone> GenericStateBroadcastChannel<MutexType, T> {
+    /// Reports the internal state to the external verification harness
+    pub fn verif_snapshot(&self, f: &mut dyn FnMut(crate::verif::Item<'_>)) {
+        use crate::verif::{list_links, Entry, Item};
+        let state = self.inner.lock();
+        f(Item::Scalar("is_closed", state.is_closed as u64));
+        f(Item::Scalar("state_id", state.state_id.0));
+        f(Item::Scalar("has_value", state.value.is_some() as u64));
+        let mut report = |queue: u8, node: &ListNode<RecvWaitQueueEntry>| {
+            f(Item::Entry(Entry {
+                queue,
+                addr: node as *const _ as usize,
+                state: match node.state {
+                    RecvPollState::Unregistered => 0,
+                    RecvPollState::Registered => 1,
+                },
+                waker: node.task.as_ref(),
+                num: node.state_id.0,
+                links: list_links(node),
+            }))
+        };
+        state.waiters.verif_for_each(&mut |node| report(0, node));
+        state.waiters.verif_for_each_rev(&mut |node| report(0x80, node));
+    }
+}
+
+#[cfg(futures_intrusive_verif)]
+impl StateId {
+    /// The numeric value of the id, for the external verification harness
+    pub fn verif_value(&self) -> u64 {
+        self.0
+    }
+}
+
 impl<MutexType: RawMutex, T: Clone> ChannelReceiveAccess<T>
     for GenericStateBroadcastChannel<MutexType, T>
 {
@@ -770,6 +805,52 @@ mod if_alloc {
                 state_id: StateId,
             ) -> Option<(StateId, T)> {
                 self.inner.channel.try_receive(state_id)
+            }
+        }
+
+        #[cfg(futures_intrusive_verif)]
+        impl<MutexType, T> GenericStateSender<MutexType, T>
+        where
+            MutexType: RawMutex,
+            T: Clone + 'static,
+        {
+            /// Reports the internal state to the external verification harness
+            pub fn verif_snapshot(
+                &self,
+                f: &mut dyn FnMut(crate::verif::Item<'_>),
+            ) {
+                f(crate::verif::Item::Scalar(
+                    "senders",
+                    self.inner.senders.load(Ordering::Relaxed) as u64,
+                ));
+                f(crate::verif::Item::Scalar(
+                    "receivers",
+                    self.inner.receivers.load(Ordering::Relaxed) as u64,
+                ));
+                self.inner.channel.verif_snapshot(f)
+            }
+        }
+
+        #[cfg(futures_intrusive_verif)]
+        impl<MutexType, T> GenericStateReceiver<MutexType, T>
+        where
+            MutexType: RawMutex,
+            T: Clone + 'static,
+        {
+            /// Reports the internal state to the external verification harness
+            pub fn verif_snapshot(
+                &self,
+                f: &mut dyn FnMut(crate::verif::Item<'_>),
+            ) {
+                f(crate::verif::Item::Scalar(
+                    "senders",
+                    self.inner.senders.load(Ordering::Relaxed) as u64,
+                ));
+                f(crate::verif::Item::Scalar(
+                    "receivers",
+                    self.inner.receivers.load(Ordering::Relaxed) as u64,
+                ));
+                self.inner.channel.verif_snapshot(f)
             }
         }
 
